@@ -15,6 +15,7 @@ import (
 // overlay): ./conc/run.sh /dev/shm/ov-c20 -tags verifconc -count=1 -run '^TestRestConc$' ./restc
 func TestRest(t *testing.T) {
 	res := common.NewResult("rest")
+	startWatchdog(res)
 	defer func() {
 		if err := res.Write(); err != nil {
 			t.Fatalf("writing the result file: %v", err)
